@@ -241,7 +241,8 @@ def tree_specs(draw, o=None, depth=None, kinds=None):  # noqa: PLR0911, PLR0912
     if k == "Stack":
         return {
             "k": k,
-            "thresholds": draw(edge_lists(min(4, o.max_bins))),
+            # the cuts of a Stack are independent of each other: any order is a legitimate declaration
+            "thresholds": draw(st.permutations(draw(edge_lists(min(4, o.max_bins))))) if draw(st.integers(0, 2)) == 0 else draw(edge_lists(min(4, o.max_bins))),
             "q": draw(num_q(affine=o.affine, flavours=o.flavours)),
             "value": child(),
             "nanflow": flow(),
@@ -611,3 +612,24 @@ def variant_of(draw, spec):
     g = groups[draw(st.sampled_from(sorted(groups)))]
     path, desc, v = g[draw(st.integers(0, len(g) - 1))]
     return {"path": list(path), "desc": desc, "spec": v}
+
+
+@st.composite
+def with_transform_templates(draw, spec):
+    """The spec with a Count(transform) value template in every sparse container that counts (and an extra Categorize
+    beside the tree when there is none): bins created later - by fills, by merges, after reloads and unpickling - must
+    follow the template's declaration."""
+    import copy  # noqa: PLC0415
+
+    from .spec import walk_spec  # noqa: PLC0415
+
+    spec = copy.deepcopy(spec)
+    hit = False
+    for _, node in list(walk_spec(spec)):
+        if node["k"] in ("Categorize", "SparselyBin") and node["value"]["k"] == "Count":
+            node["value"] = {"k": "Count", "transform": draw(st.sampled_from(("sq", "half")))}
+            hit = True
+    if not hit:
+        extra = {"k": "Categorize", "q": {"t": "cat", "col": "s", "fl": "lambda"}, "value": {"k": "Count", "transform": draw(st.sampled_from(("sq", "half")))}}
+        spec = {"k": "UntypedLabel", "pairs": {"main": spec, "extra": extra}}
+    return spec
